@@ -171,6 +171,13 @@ class ndpoly(numpy.ndarray):  # pylint: disable=invalid-name
                 Extra arguments passed to `numpy.ndarray` constructor.
 
         """
+        exponents = numpy.asarray(exponents)
+        if exponents.size and (
+            numpy.min(exponents) < 0
+            or numpy.max(exponents) >= 2**32 - cls.KEY_OFFSET
+        ):
+            # would wrap around in the unsigned storage keys below
+            raise ValueError(f"exponents out of range: {exponents}")
         exponents = numpy.array(exponents, dtype=numpy.uint32)
         if numpy.prod(exponents.shape):
             keys = (exponents + cls.KEY_OFFSET).flatten()
